@@ -24,7 +24,7 @@ PAUSE_POINTS = ["hash.done.prefix", "hash.done.contents", "hashing.done", "repor
 def cfg_sample(r):
     return {"hash_fn": r.choice(["metro", "blake3", "sha256", "xxhash"]), "kind": r.choice([None, "ssd", "hdd"]),
             "max_prefix": r.choice([None, None, 100, 65536]), "max_suffix": r.choice([None, None, 100, 4096]),
-            "transform": r.choice([None, None, None, "cat", "head100"]), "threads": r.choice([None, ["1"], ["default:4,2"]]),
+            "transform": r.choice([None, None, None, "cat", "head100", "head5000", "tail50"]), "threads": r.choice([None, ["1"], ["default:4,2"]]),
             "match_links": False, "rf": r.choice([None, None, ("over", 0)]), "min0": False, "cache": None}
 
 
@@ -68,6 +68,8 @@ class Tree:
             # same prefix and suffix, different middle
             self.write(self.newname(), (fam + 1, L, (L // 2,)), fresh=True)
             self.write(self.newname(), (fam + 1, L, (L // 2,)), fresh=True)
+            # differs early (but after the first 100 bytes): transforms that keep different amounts disagree on it
+            self.write(self.newname(), (fam + 1, L, (2000,)), fresh=True)
 
     def edit(self):
         r = self.r
